@@ -34,6 +34,9 @@ def observer(ctx):
             return
         sn = koracles.Snapshot(run.wf)
         bad = koracles.graph_invariants(sn) + koracles.state_invariants(sn)
+        if legal and op in ("define", "completed", "check_consistency", "reset_interrupted"):
+            # at the requests that end a director transaction in which a step becomes or stays SUCCEEDED
+            bad += koracles.succeeded_outputs(sn)
         for b in bad[:3]:
             sig = "inv-" + b.split(" ")[0]
             ctx.finding(Finding(PID, sig, f"after request '{kcorr.decode_line(line)[:120]}': {b}",
